@@ -34,7 +34,7 @@ from ..core import MachineryError
 MODULE = "ProcessGrammar"
 TAG = "growth-g03"
 INVARIANTS = ("TypeOK NsBijective ChainNsCoherent FoldIsDeclarative AcceptEquiv SubDefaultsUnused "
-              "RunIsDataFlow ResOK")
+              "RunIsDataFlow NestAssoc ResOK")
 
 
 def cfg(n, nn, ns, max_ops, first, stride, count, *, rejected=False, kinds=("chain", "parallel"),
@@ -147,7 +147,11 @@ def leaf_class():
                 if v is not None:
                     s += h["w"][i] * int(np.asarray(v).ravel()[0])
             idx = {b: j + 1 for j, b in enumerate(h["names"])}
-            return {o: np.array([h["kbase"] * self.k + h["obase"] * idx[o] + s]) for o in self.bouts}
+            junk = np.array([h["junk"]["val"]])
+            out = {i: junk for i in self.bins}          # foreign items: must be ignored by update_output_data
+            out[h["junk"]["name"]] = junk
+            out.update({o: np.array([h["kbase"] * self.k + h["obase"] * idx[o] + s]) for o in self.bouts})
+            return out
 
     _LEAF = Leaf
     return Leaf
@@ -175,9 +179,9 @@ def expected_disc(rec):
 # ----------------------------------------------------------------------------- replay of one CASE record
 
 class Replayer:
-    def __init__(self, header, rng, par_execs):
-        self.h, self.rng, self.par_execs = header, rng, par_execs
-        self.n_cases = self.n_execs = self.n_ops = self.n_rejected = 0
+    def __init__(self, header, rng, par_execs, max_nests=1):
+        self.h, self.rng, self.par_execs, self.max_nests = header, rng, par_execs, max_nests
+        self.n_cases = self.n_execs = self.n_ops = self.n_rejected = self.n_nested = 0
         self.observations = []      # (clause, signature, detail): handed to ck.observe by the parent process
 
     def obs(self, clause, case, what, expected, got, **more):
@@ -234,8 +238,8 @@ class Replayer:
                     ok = False
         return ok
 
-    def check_composite_grammar(self, case, comp):
-        g = case["g"]
+    def check_composite_grammar(self, case, comp, g=None, where=""):
+        g = case["g"] if g is None else g
         ig, og = comp.io.input_grammar, comp.io.output_grammar
         exp = {
             "in.names": names(g["ins"]), "in.required": names(g["req"]), "in.defaults": int_map(g["dflt"]),
@@ -253,7 +257,7 @@ class Replayer:
         for key, e in exp.items():
             if got[key] != e:
                 clause = "composite-namespace-maps" if "namespaced" in key else "composite-grammar"
-                self.obs(clause, case, key, e, got[key])
+                self.obs(clause, case, where + key, e, got[key])
                 ok = False
         return ok
 
@@ -274,7 +278,7 @@ class Replayer:
                 return False
         return True
 
-    def check_exec(self, case, comp, discs, ex):
+    def check_exec(self, case, comp, discs, ex, where=""):
         from gemseo.core.grammars.errors import InvalidDataError
 
         data = int_map(ex["D"])
@@ -286,30 +290,57 @@ class Replayer:
         except InvalidDataError as e:
             got_ok, err, out = False, str(e), None
         except Exception as e:  # noqa: BLE001
-            self.obs("execute", case, "exception", "ok" if r["ok"] else "InvalidDataError", repr(e)[:300],
+            self.obs("execute", case, where + "exception", "ok" if r["ok"] else "InvalidDataError", repr(e)[:300],
                      exception=type(e).__name__)
             return False
         if got_ok != r["ok"]:
-            self.obs("acceptance", case, "accepted" if got_ok else "rejected",
+            self.obs("acceptance", case, where + ("accepted" if got_ok else "rejected"),
                      {"D": data, "ok": r["ok"], "at": r["at"]}, {"ok": got_ok, "error": err[:300]})
             return False
         if not got_ok:
             if comp.io.input_grammar.name not in err:
-                self.obs("acceptance", case, "rejected-by-another-grammar",
+                self.obs("acceptance", case, where + "rejected-by-another-grammar",
                          {"D": data, "rejected_by": comp.io.input_grammar.name}, err[:300])
                 return False
             return True
         exp = int_map(r["data"])
         got = real_ints(out)
         if got != exp:
-            self.obs("returned-data", case, "data", {"D": data, "data": exp}, got)
+            self.obs("returned-data", case, where + "data", {"D": data, "data": exp}, got)
             return False
         for k, (d, step) in enumerate(zip(discs, r["steps"]), 1):
             exp_k, got_k = int_map(step), real_ints(d.io.data)
             if exp_k != got_k:
-                self.obs("propagated-data", case, "discipline-data", {"D": data, "k": k, "data": exp_k}, got_k)
+                self.obs("propagated-data", case, where + "discipline-data", {"D": data, "k": k, "data": exp_k}, got_k)
+                return False
+        for k, (d, acc) in enumerate(zip(discs, ex["acc"]), 1):
+            exp_k = {"in": int_map(acc["inb"]), "out": int_map(acc["outb"])}
+            got_k = {"in": real_ints(d.io.get_input_data(with_namespaces=False)),
+                     "out": real_ints(d.io.get_output_data(with_namespaces=False))}
+            if exp_k != got_k:
+                self.obs("accessors", case, where + "without-namespaces", {"D": data, "k": k, **exp_k}, got_k)
                 return False
         return True
+
+    def replay_nested(self, case, nst, grammar_type, execs):
+        """MDOChain([.., MDOChain(members lo..hi), ..]): the specification says (invariant NestAssoc, and the
+        `same` field evaluated by TLC for this record) that it behaves as the flat chain of the record."""
+        from gemseo.core.chains.chain import MDOChain
+
+        lo, hi = nst["lo"], nst["hi"]
+        where = f"nested[{lo}..{hi}]."
+        self.n_nested += 1
+        discs = self.build_leaves(case, grammar_type)
+        if not self.apply_ops(case, discs):
+            return False
+        inner = MDOChain(discs[lo - 1:hi], name="Inner")
+        outer = MDOChain([*discs[:lo - 1], inner, *discs[hi:]], name="Outer")
+        ok = self.check_composite_grammar(case, inner, nst["inner"], where + "inner.")
+        ok = self.check_composite_grammar(case, outer, nst["g"], where) and ok
+        if nst["same"]:
+            for ex in execs:
+                ok = self.check_exec(case, outer, discs, ex, where) and ok
+        return ok
 
     def replay(self, case, grammar_type):
         from gemseo.core.chains.chain import MDOChain
@@ -338,6 +369,11 @@ class Replayer:
                 execs = execs[-1:]
             for ex in execs:
                 ok = self.check_exec(case, comp, discs, ex) and ok
+            nests = sorted(case.get("nest", ()), key=lambda x: (x["lo"], x["hi"]))
+            if len(nests) > self.max_nests:
+                nests = self.rng.sample(nests, self.max_nests)
+            for nst in nests:
+                ok = self.replay_nested(case, nst, grammar_type, execs) and ok
             return ok
         except Exception as e:  # noqa: BLE001  (an exception of gemseo where the specification allows the call)
             self.obs("exception", case, "unexpected-exception", "no exception", repr(e)[:300],
@@ -348,39 +384,37 @@ class Replayer:
 # ----------------------------------------------------------------------------- families
 
 def families(ck):
-    """(label, cfg kwargs).  codes: one decimal digit per (discipline, name) -> 10**(n*nn) instances."""
+    """(label, cfg kwargs, TLC workers).  codes: one decimal digit per (discipline, name) -> 10**(n*nn) instances."""
     s = ck.seed
     if not ck.thorough:
         return [
             # every add_namespace call, accepted or rejected (KeyError / ValueError), then Execute as an action
             ("2x2-rejected", dict(n=2, nn=2, ns=["n"], max_ops=1, first=(7 + s) % 1663, stride=1663, count=6,
-                                  rejected=True, execute=True)),
+                                  rejected=True, execute=True), 1),
             # two calls (the order of the calls is part of the behaviour)
             ("2x2-two-ops", dict(n=2, nn=2, ns=["n"], max_ops=2, first=(3 + s) % 1249, stride=1249, count=8,
-                                 kinds=("chain",))),
-            ("3x2-one-op", dict(n=3, nn=2, ns=["n"], max_ops=1, first=(11 + s) % 62497, stride=62497, count=16)),
-            ("2x3-one-op", dict(n=2, nn=3, ns=["n"], max_ops=1, first=(5 + s) % 62483, stride=62483, count=16)),
-            ("3x3-no-namespace", dict(n=3, nn=3, ns=[], max_ops=0, first=(13 + s) % 16666643, stride=16666643,
-                                      count=60)),
-            ("2x2-no-namespace", dict(n=2, nn=2, ns=[], max_ops=0, first=(1 + s) % 41, stride=41, count=243,
-                                      wide=True)),
+                                 kinds=("chain",), wide=True), 1),
+            ("3x2-one-op", dict(n=3, nn=2, ns=["n"], max_ops=1, first=(11 + s) % 62497, stride=62497, count=16), 1),
+            ("2x3-one-op", dict(n=2, nn=3, ns=["n"], max_ops=1, first=(5 + s) % 62483, stride=62483, count=16), 1),
+            ("3x3-no-namespace", dict(n=3, nn=3, ns=[], max_ops=0, first=(13 + s) % 9999991, stride=9999991,
+                                      count=100), 1),
         ]
     return [
-        ("2x2-rejected", dict(n=2, nn=2, ns=["n"], max_ops=2, first=(7 + s) % 499, stride=499, count=20,
-                              rejected=True, execute=True)),
-        ("2x2-one-op", dict(n=2, nn=2, ns=["n"], max_ops=1, first=(2 + s) % 7, stride=7, count=1428, wide=True)),
-        ("2x2-two-ops", dict(n=2, nn=2, ns=["n"], max_ops=2, first=(3 + s) % 101, stride=101, count=99)),
-        ("3x2-two-ops", dict(n=3, nn=2, ns=["n"], max_ops=2, first=(11 + s) % 19997, stride=19997, count=50,
-                             kinds=("chain",))),
-        ("2x3-two-ops", dict(n=2, nn=3, ns=["n"], max_ops=2, first=(5 + s) % 19993, stride=19993, count=50,
-                             kinds=("chain",))),
-        ("3x2-one-op", dict(n=3, nn=2, ns=["n"], max_ops=1, first=(11 + s) % 3331, stride=3331, count=300)),
-        ("2x3-one-op", dict(n=2, nn=3, ns=["n"], max_ops=1, first=(5 + s) % 3323, stride=3323, count=300)),
-        ("3x3-one-op", dict(n=3, nn=3, ns=["n"], max_ops=1, first=(13 + s) % 6666653, stride=6666653, count=150)),
-        ("2x4-one-op", dict(n=2, nn=4, ns=["n"], max_ops=1, first=(17 + s) % 666649, stride=666649, count=150)),
+        ("2x2-rejected", dict(n=2, nn=2, ns=["n"], max_ops=1, first=(7 + s) % 199, stride=199, count=50,
+                              rejected=True, execute=True), 2),
+        ("2x2-one-op", dict(n=2, nn=2, ns=["n"], max_ops=1, first=(2 + s) % 13, stride=13, count=769, wide=True), 4),
+        ("2x2-two-ops", dict(n=2, nn=2, ns=["n"], max_ops=2, first=(3 + s) % 199, stride=199, count=50, wide=True), 4),
+        ("3x2-two-ops", dict(n=3, nn=2, ns=["n"], max_ops=2, first=(11 + s) % 39989, stride=39989, count=25,
+                             kinds=("chain",)), 4),
+        ("2x3-two-ops", dict(n=2, nn=3, ns=["n"], max_ops=2, first=(5 + s) % 39983, stride=39983, count=25,
+                             kinds=("chain",)), 4),
+        ("3x2-one-op", dict(n=3, nn=2, ns=["n"], max_ops=1, first=(11 + s) % 4999, stride=4999, count=200), 4),
+        ("2x3-one-op", dict(n=2, nn=3, ns=["n"], max_ops=1, first=(5 + s) % 4993, stride=4993, count=200), 4),
+        ("3x3-one-op", dict(n=3, nn=3, ns=["n"], max_ops=1, first=(13 + s) % 9999991, stride=9999991, count=100), 4),
+        ("2x4-one-op", dict(n=2, nn=4, ns=["n"], max_ops=1, first=(17 + s) % 999983, stride=999983, count=100), 4),
         ("3x3-no-namespace", dict(n=3, nn=3, ns=[], max_ops=0, first=(13 + s) % 999983, stride=999983,
-                                  count=1000)),
-        ("2x2-no-namespace", dict(n=2, nn=2, ns=[], max_ops=0, first=0, stride=1, count=10000, wide=True)),
+                                  count=1000), 4),
+        ("2x2-no-namespace", dict(n=2, nn=2, ns=[], max_ops=0, first=s % 2, stride=2, count=5000, wide=True), 4),
     ]
 
 
@@ -394,14 +428,14 @@ def _replay_chunk(args):
 
     logging.disable(logging.CRITICAL)
     warnings.filterwarnings("ignore")
-    header, cases, seed, par_execs = args
-    rp = Replayer(header, random.Random(seed), par_execs)
+    header, cases, seed, par_execs, max_nests = args
+    rp = Replayer(header, random.Random(seed), par_execs, max_nests)
     quiet = 0
     for i, case in cases:
         gt = "JSONGrammar" if (case["code"] + i) % 2 == 0 else "SimpleGrammar"
         quiet += bool(rp.replay(case, gt))
     return {"cases": rp.n_cases, "execs": rp.n_execs, "ops": rp.n_ops, "rejected_ops": rp.n_rejected,
-            "quiet_cases": quiet, "observations": rp.observations}
+            "nested": rp.n_nested, "quiet_cases": quiet, "observations": rp.observations}
 
 
 def run(ck):
@@ -409,19 +443,30 @@ def run(ck):
     from concurrent.futures import ThreadPoolExecutor
 
     fams = families(ck)
-    n_jvm = 8 if ck.thorough else 6
+    n_jvm = 4 if ck.thorough else 5
 
     def model_check(item):
-        label, kw = item
-        need = [a for a, on in (("AddNamespaceToInput", kw["max_ops"] > 0), ("AddNamespaceToOutput", kw["max_ops"] > 0),
-                                ("Build", True), ("ExecuteAny", kw.get("execute", False))) if on]
-        r = ck.tlc(MODULE, cfg(**kw), workers=1, timeout=1200 if ck.thorough else 240, deadlock=False,
-                   coverage=True, tag=f"{TAG}/{label}", env={"JAVA_TOOL_OPTIONS": _JVM}, require_actions=tuple(need))
+        label, kw, workers = item
+        # TLC's coverage statistics double the run time: they are asked for in the family that has the Execute
+        # action only; the other actions are visible in the printed records (checked below)
+        with_execute = kw.get("execute", False)
+        r = ck.tlc(MODULE, cfg(**kw), workers=workers, timeout=1200 if ck.thorough else 240, deadlock=False,
+                   coverage=with_execute, tag=f"{TAG}/{label}", env={"JAVA_TOOL_OPTIONS": _JVM},
+                   require_actions=("AddNamespaceToInput", "AddNamespaceToOutput", "Build", "ExecuteAny")
+                   if with_execute else ())
         recs = list(printed_json(r.out))
         header = next((x for x in recs if x.get("tag") == "HEADER"), None)
-        cases = [x for x in recs if x.get("tag") == "CASE"]
+        # one-line records: complete whatever the number of TLC workers; sorted, the order is deterministic
+        cases = sorted((x for x in recs if x.get("tag") == "CASE"),
+                       key=lambda c: (c["code"], len(c["ops"]), json.dumps(c["ops"], sort_keys=True), c["kind"]))
         if header is None or not cases:
             raise MachineryError(f"G03: TLC printed no HEADER/CASE record for family {label}")
+        if kw["max_ops"] > 0:
+            sides = {op["side"] for c in cases for op in c["ops"] if op["ok"]}
+            if sides != {"in", "out"}:
+                raise MachineryError(f"G03: vacuity: add_namespace calls on {sorted(sides)} only in family {label}")
+        if {c["kind"] for c in cases} != set(kw.get("kinds", ("chain", "parallel"))):
+            raise MachineryError(f"G03: vacuity: a kind of composite was never built in family {label}")
         return label, kw, r, header, cases
 
     # 1. the specification: every family model-checked (invariants + action property), CASE records printed
@@ -437,7 +482,8 @@ def run(ck):
     for f, (label, kw, r, header, cases) in enumerate(checked):
         indexed = list(enumerate(cases))
         for c in range(0, len(indexed), chunk):
-            jobs.append((header, indexed[c:c + chunk], ck.seed * 7919 + 1000 * f + c, par_execs))
+            jobs.append((header, indexed[c:c + chunk], ck.seed * 7919 + 1000 * f + c, par_execs,
+                         3 if ck.thorough else 1))
             owner.append(label)
     n_proc = max(1, min(8, len(jobs)))
     if n_proc == 1:
@@ -446,9 +492,9 @@ def run(ck):
         with mp.get_context("fork").Pool(n_proc) as pool:
             results = pool.map(_replay_chunk, jobs, chunksize=1)
 
-    total = {"cases": 0, "execs": 0, "ops": 0, "rejected_ops": 0, "quiet_cases": 0}
+    total = {"cases": 0, "execs": 0, "ops": 0, "rejected_ops": 0, "nested": 0, "quiet_cases": 0}
     per_family = {label: {"instances": kw["count"], "tlc_distinct_states": r.distinct, "composites": 0,
-                          "executions": 0, "add_namespace_calls": 0, "rejected_calls": 0}
+                          "executions": 0, "add_namespace_calls": 0, "rejected_calls": 0, "nested_chains": 0}
                   for label, kw, r, _, _ in checked}
     for label, res in zip(owner, results):
         pf = per_family[label]
@@ -456,6 +502,7 @@ def run(ck):
         pf["executions"] += res["execs"]
         pf["add_namespace_calls"] += res["ops"]
         pf["rejected_calls"] += res["rejected_ops"]
+        pf["nested_chains"] += res["nested"]
         for key in total:
             total[key] += res[key]
         for clause, sig, detail in res["observations"]:
